@@ -108,6 +108,11 @@ var whitelist = []fnSpec{
 	{"thrift", "BinaryProtocol", "WriteBinaryNocopy"}, {"thrift", "BinaryProtocol", "WriteStringNocopy"},
 	{"base", "Base", "BLength"}, {"base", "Base", "FastWriteNocopy"}, {"base", "Base", "FastWrite"},
 	{"base", "BaseResp", "BLength"}, {"base", "BaseResp", "FastWriteNocopy"}, {"base", "BaseResp", "FastWrite"},
+	// the ttheader encoder over an abstract bufiox.Writer (ext3b.go): Malloc'ed windows, a struct
+	// parameter, two map range statements, v, ok := m[k], range over a []byte
+	{"ttheader", "", "WriteByte"}, {"ttheader", "", "WriteUint16"}, {"ttheader", "", "WriteUint32"},
+	{"ttheader", "", "WriteString"}, {"ttheader", "", "WriteString2BLen"},
+	{"ttheader", "", "writeKVInfo"}, {"ttheader", "", "Encode"},
 }
 
 // Coq names that differ from g_<pkg>_<Func> (methods of several types with the same name)
@@ -196,9 +201,10 @@ type fnInfo struct {
 	errKeys               map[string]bool // error values (ecode keys) the function or its callees can produce
 	errCmps               []errCmp        // comparisons err == <error variable> to be validated at the end
 	// phase 3 (ext3.go)
-	hasRange bool                // contains a range statement over a map
-	nilable  map[*types.Var]bool // abstract objects (interface-typed parameters) that are compared with nil: they get a nil flag
-	oracles  []oracle            // the enumeration orders of its map range statements (and of its callees'): trailing parameters
+	hasRange bool                    // contains a range statement over a map
+	nilable  map[*types.Var]bool     // abstract objects (interface-typed parameters) that are compared with nil: they get a nil flag
+	regionOf map[*types.Var]*absRoot // local []byte variables that are windows into an abstract object's memory
+	oracles  []oracle                // the enumeration orders of its map range statements (and of its callees'): trailing parameters
 }
 
 type errCmp struct {
@@ -562,6 +568,9 @@ func (c *fctx) identTerm(id *ast.Ident) string {
 		if _, isStruct := structFields(o.Type()); isStruct {
 			c.failf(id, "struct variable %s used as a whole (only its fields are translated)", id.Name)
 		}
+		if c.f.regionOf[o] != nil {
+			c.failf(id, "%s is a window into an abstract object's memory: used as a value (only x[i] = v, PutUintK(x[a:b], v), y := x[a:b], len(x), return x are translated)", id.Name)
+		}
 		c.coqType(id, o.Type())
 		if c.isThreadedVar(o) {
 			c.readMut = true
@@ -752,6 +761,9 @@ func (c *fctx) expr(e ast.Expr) (pre []string, term string) {
 		if !isBytesLike(c.info.TypeOf(x.X)) || x.Slice3 {
 			c.failf(e, "slice expression on %s", c.info.TypeOf(x.X))
 		}
+		if c.isRegionExpr(x.X) {
+			c.failf(e, "a window into an abstract object's memory used as a value")
+		}
 		if c.isMutatedParam(x.X) && !c.lenOfSlice {
 			c.failf(e, "slice of a []byte parameter that is also stored into, outside a store destination (aliasing is not modelled)")
 		}
@@ -778,6 +790,9 @@ func (c *fctx) expr(e ast.Expr) (pre []string, term string) {
 		}
 		return pre, t
 	case *ast.CallExpr:
+		if isRegionMethod(c.calleeFunc(x)) {
+			c.failf(e, "the window returned by %s used as a value (assign it to a variable)", types.ExprString(x.Fun))
+		}
 		pre, terms := c.call(x)
 		if len(terms) != 1 {
 			c.failf(e, "call yielding %d values used as a single value", len(terms))
@@ -979,6 +994,10 @@ func (c *fctx) call(x *ast.CallExpr) (pre []string, terms []string) {
 				if !isBytesLike(c.info.TypeOf(x.Args[0])) {
 					c.failf(x, "len of %s", c.info.TypeOf(x.Args[0]))
 				}
+				if c.isRegionExpr(x.Args[0]) {
+					p, w, _ := c.regionExpr(x.Args[0])
+					return p, []string{"(gregion_len " + w + ")"}
+				}
 				// len(p[a:]) keeps no reference to p: allowed for a parameter that is stored into
 				saved := c.lenOfSlice
 				c.lenOfSlice = true
@@ -1042,6 +1061,9 @@ func (c *fctx) call(x *ast.CallExpr) (pre []string, terms []string) {
 		p, a := c.expr(x.Args[0])
 		t := c.fresh()
 		return append(p, fmt.Sprintf("do %s <- gbe_load %d %s;", t, loadLib[full], a)), []string{t}
+	case putLib[full] != 0 && c.isRegionExpr(x.Args[0]):
+		c.noteMut(x)
+		return c.regionPut(x, putLib[full]), nil
 	case putLib[full] != 0:
 		c.noteMut(x)
 		p1, name, off := c.storeDest(x.Args[0])
@@ -1265,7 +1287,18 @@ func (c *fctx) block(depth int, list []ast.Stmt, k func(depth int) string) strin
 			}
 		}
 		c.topCall = soleCall(s.Results)
-		pre, terms := c.exprsAs(s.Results, func(i int) types.Type { return c.f.results[i].Type() })
+		var pre, terms []string
+		for i, r := range s.Results {
+			var p []string
+			var t string
+			if c.f.regionOf[c.f.results[i]] != nil {
+				p, t, _ = c.regionExpr(r)
+			} else {
+				p, t = c.exprAs(r, c.f.results[i].Type())
+			}
+			pre = append(pre, p...)
+			terms = append(terms, t)
+		}
 		c.checkOrder(s)
 		return c.lines(depth, pre) + ind(depth) + c.retTerms(terms) + "\n"
 	case *ast.IfStmt:
@@ -1323,6 +1356,16 @@ func (c *fctx) block(depth int, list []ast.Stmt, k func(depth int) string) strin
 					continue // a value without state
 				}
 				val := c.zero(n, obj.Type())
+				if c.f.regionOf[obj] != nil {
+					val = "gregion_nil"
+					if len(vs.Values) != 0 {
+						p, t, _ := c.regionExpr(vs.Values[i])
+						pre = append(pre, p...)
+						val = t
+					}
+					pre = append(pre, fmt.Sprintf("let %s := %s in", c.nameOf(obj), val))
+					continue
+				}
 				if len(vs.Values) != 0 {
 					if _, _, isMap := mapKV(obj.Type()); isMap {
 						if y, ok := ast.Unparen(vs.Values[i]).(*ast.Ident); ok {
@@ -1399,6 +1442,20 @@ func (c *fctx) assign(s *ast.AssignStmt) []string {
 		name := c.lhsName(s.Lhs[0])
 		return append(pre, c.bindLine(s.Lhs[0], name, term))
 	}
+	if pre, ok := c.commaOk(s); ok {
+		return pre
+	}
+	if len(s.Lhs) == 1 && len(s.Rhs) == 1 {
+		// x[i] = e for a window x
+		if ix, ok := ast.Unparen(s.Lhs[0]).(*ast.IndexExpr); ok && c.isRegionExpr(ix.X) && s.Tok == token.ASSIGN {
+			return c.regionIndexStore(s, ix)
+		}
+		// y = x[a:b] / y := x for windows
+		if v, r := c.regionVar(s.Lhs[0]); r != nil {
+			pre, t, _ := c.regionExpr(s.Rhs[0])
+			return append(pre, fmt.Sprintf("let %s := %s in", c.assignVar(c.nameOf(v)), t))
+		}
+	}
 	// store: buf[i] = e
 	if len(s.Lhs) == 1 && len(s.Rhs) == 1 {
 		if ix, ok := ast.Unparen(s.Lhs[0]).(*ast.IndexExpr); ok {
@@ -1411,6 +1468,9 @@ func (c *fctx) assign(s *ast.AssignStmt) []string {
 					n, isField := c.fieldVar(sel)
 					if !isField {
 						c.failf(s, "indexed assignment to %s", types.ExprString(ix.X))
+					}
+					if bid, ok := ast.Unparen(sel.X).(*ast.Ident); ok && c.f.isStructParam(c.info.Uses[bid]) {
+						c.failf(s, "store into a map field of the struct parameter %s (the caller's map would change)", bid.Name)
 					}
 					mname, chk = n, c.recvCheck(sel.X)
 				} else {
@@ -1446,6 +1506,13 @@ func (c *fctx) assign(s *ast.AssignStmt) []string {
 		call, ok := s.Rhs[0].(*ast.CallExpr)
 		if !ok {
 			c.failf(s, "multi-value assignment from %T", s.Rhs[0])
+		}
+		if isRegionMethod(c.calleeFunc(call)) {
+			if id, isId := ast.Unparen(s.Lhs[0]).(*ast.Ident); !isId || id.Name != "_" {
+				if _, r := c.regionVar(s.Lhs[0]); r == nil {
+					c.failf(s, "the window returned by %s must be assigned to a local []byte variable", types.ExprString(call.Fun))
+				}
+			}
 		}
 		pre, terms := c.call(call)
 		if len(terms) != len(s.Lhs) {
@@ -1762,6 +1829,15 @@ func (t *tr) translate(f *fnInfo) {
 			}
 			continue
 		}
+		if fs, isStruct := structFields(p.Type()); isStruct {
+			if !structParamOK(p.Type()) {
+				c.failf(f.decl, "parameter %s of the struct type %s with a field of an untranslatable type", p.Name(), p.Type())
+			}
+			for _, fv := range fs {
+				addBinder(c.fieldName(p, fv), c.coqType(f.decl, fv.Type()))
+			}
+			continue
+		}
 		n := c.nameOf(p)
 		if f.nilable[p] {
 			addBinder(c.absNilName(p), "bool")
@@ -1822,6 +1898,10 @@ func (t *tr) translate(f *fnInfo) {
 				}
 				continue
 			}
+			if f.regionOf[r] != nil {
+				pre = append(pre, fmt.Sprintf("let %s := gregion_nil in", c.nameOf(r)))
+				continue
+			}
 			pre = append(pre, fmt.Sprintf("let %s := %s in", c.nameOf(r), c.zero(f.decl, r.Type())))
 		}
 	}
@@ -1870,6 +1950,16 @@ func (t *tr) translate(f *fnInfo) {
 	}
 	if f.recvStruct != nil {
 		notes = append(notes, fmt.Sprintf("the receiver %s is a pointer to a struct: %s says whether it is nil (then every p.f panics), one binder per field; the final fields are the first components of the result", f.recvStruct.Name(), c.isnilName()))
+	}
+	for _, r := range f.abs {
+		if r.poke {
+			notes = append(notes, fmt.Sprintf("windows into the memory of %s (results of Malloc) are (start, length); stores through them are %s", r.v.Name(), r.pokeName()))
+		}
+	}
+	for _, p := range f.params {
+		if _, isStruct := structFields(p.Type()); isStruct {
+			notes = append(notes, fmt.Sprintf("the parameter %s is a struct (a copy): one binder per field", p.Name()))
+		}
 	}
 	for _, e := range f.externs {
 		notes = append(notes, fmt.Sprintf("%s is given: parameter %s", shortFull(e.FullName()), externalFns[e.FullName()]))
